@@ -16,7 +16,8 @@ TECHNIQUE = ('explicit-state BFS over read/write histories of the real Cache '
 
 SMALL = ('$B', 40)
 LARGE = ('$B', 120)
-ROOM = 250          # bytes of value files that fit below the limit
+ROOM = 240          # bytes of value files that fit below the limit
+                    # (= 2 large = 6 small: the limit can be hit exactly)
 _empty = {}
 
 
@@ -210,18 +211,25 @@ def plan(tier):
         for cl in (0, 1, 2, 10):
             for prefix in PREFIXES:
                 if tier == 'quick':
-                    units.append((pol, cl, ('a', 'b', 'c'), 3, 2, prefix))
+                    units.append((pol, cl, ('a', 'b', 'c'), 3, 2, prefix, 0))
                 else:
-                    units.append((pol, cl, ('a', 'b', 'c'), 5, 3, prefix))
+                    units.append((pol, cl, ('a', 'b', 'c'), 5, 3, prefix, 0))
+                if cl in (1, 10) and pol in ('least-recently-used',
+                                             'least-frequently-used'):
+                    # statistics on: lookups take the transactional path
+                    units.append((pol, cl, ('a', 'b', 'c'),
+                                  3 if tier == 'quick' else 4, 2, prefix, 1))
             if tier != 'quick':
                 units.append((pol, cl, ('a', 'b', 'c', 'd', 'e'), 4, 2,
-                              'empty'))
+                              'empty', 0))
     return units
 
 
 def work(unit):
-    pol, cl, keys, depth, ticks, prefix, seed, cap = unit
+    pol, cl, keys, depth, ticks, prefix, stats, seed, cap = unit
     st = {'eviction_policy': pol, 'cull_limit': cl}
+    if stats:
+        st['statistics'] = 1
     ab = run.shuffled(alphabet(keys), seed, pol)
     part = seq.bfs(lambda: EvictWorld(st, prefix), ab, depth,
                    allow=c03.allow_ticks(ticks), label=pol, time_cap=cap)
